@@ -199,6 +199,7 @@ func runC02(c *eng.Ctx) {
 	ruleEpochTrimAtRecovery(c)
 	c.Floor(2)
 	c.Rule("R04.5", "K3")
+	ruleNewPartitionKnowsOnlyItsOwnProgress(c)
 	ruleReplicaProgressSources(c)
 	ruleAddedReplicaUnconfirmed(c)
 	c.Floor(1)
@@ -303,6 +304,7 @@ func runC02(c *eng.Ctx) {
 
 	// ---- R02.7 ISR shrink/expand shape
 	c.Rule("R02.7", "K1")
+	ruleHealthCheckPeriod(c)
 	if fn := c.Fn("server.(*replicator).tick"); fn != nil {
 		inISR := func(pol bool) []eng.Edge { return eng.BoolEdges(fn, eng.Call(-1, "server.partition.inISR"), pol) }
 		isLagCmp := func(v ssa.Value) bool {
